@@ -3,10 +3,15 @@
 package engines
 
 import (
+	"bytes"
+	"context"
 	"encoding/hex"
 	"fmt"
+	"os"
+	"os/exec"
 	"sort"
 	"strings"
+	"time"
 )
 
 // Engine is the Go half of a correspondence check. Gen produces cases (op-line
@@ -52,8 +57,43 @@ func Names() []string {
 	return ns
 }
 
+// Isolater lets an engine ask for an op to be executed in a child process (ops that can
+// crash the whole process, e.g. a double close of a channel in a goroutine).
+type Isolater interface {
+	Isolated(op string) bool
+}
+
+func execIsolated(e Engine, op string) string {
+	exe, err := os.Executable()
+	if err != nil {
+		return "isolate-failed " + Canon(err.Error())
+	}
+	ctx, cancel := context.WithTimeout(context.Background(), 60*time.Second)
+	defer cancel()
+	cmd := exec.CommandContext(ctx, exe, "one", e.Name(), op)
+	cmd.Env = append(os.Environ(), "PCVH_CHILD=1")
+	var stderr bytes.Buffer
+	cmd.Stderr = &stderr
+	out, err := cmd.Output()
+	if err != nil {
+		msg := stderr.String()
+		first := msg
+		if i := strings.Index(msg, "\n"); i >= 0 {
+			first = msg[:i]
+		}
+		if ctx.Err() != nil {
+			return "hang-in-child"
+		}
+		return "crash ~ " + Canon(first)
+	}
+	return strings.TrimRight(string(out), "\n")
+}
+
 // SafeExec runs e.Exec under recover; a panic is an answer.
 func SafeExec(e Engine, op string) (ans string) {
+	if iso, ok := e.(Isolater); ok && os.Getenv("PCVH_CHILD") == "" && iso.Isolated(op) {
+		return execIsolated(e, op)
+	}
 	defer func() {
 		if r := recover(); r != nil {
 			ans = "panic " + Canon(fmt.Sprint(r))
